@@ -103,6 +103,15 @@ def Holds (R : Ty → Ty → Prop) (B : Nat → Option Ty) (funs : List (String 
 def Wt (R : Ty → Ty → Prop) (B : Nat → Option Ty) (funs : List (String × Ty)) (t : TExpr) : Prop :=
   ∀ o, o ∈ obls t → Holds R B funs o
 
+/-- `Holds` with a meaning `F` for field accesses -/
+def HoldsF (R : Ty → Ty → Prop) (F : Ty → String → Ty → Prop) (B : Nat → Option Ty) (funs : List (String × Ty)) : Obl → Prop
+  | .fld e f r => F e f r
+  | o => Holds R B funs o
+
+/-- well typed, field accesses judged by `F` -/
+def WtF (R : Ty → Ty → Prop) (F : Ty → String → Ty → Prop) (B : Nat → Option Ty) (funs : List (String × Ty)) (t : TExpr) : Prop :=
+  ∀ o, o ∈ obls t → HoldsF R F B funs o
+
 /-! ### executable versions -/
 
 mutual
